@@ -27,6 +27,7 @@ func VerifH_C15_conn() {
 	began2 := false
 	sc := c.m.sc
 	var g vGhost
+	var atBegin1, atBegin2 []int64
 	nextKey := int64(1)
 	steps := symParam("steps", 4)
 	for i := 0; i < steps; i++ {
@@ -70,6 +71,8 @@ func VerifH_C15_conn() {
 			symAssert(vt.Begin() == nil, "begin-ok")
 			g.inTxn = true
 			g.hasTxnT = false
+			atBegin1, _, _ = vScanAll(vt)
+			atBegin2, _, _ = vScanAll(vt2)
 		case 5: // a write statement inside the transaction, or an autocommit statement
 			auto := !g.inTxn
 			if auto {
@@ -144,6 +147,12 @@ func VerifH_C15_conn() {
 				began2 = false
 			}
 			g.inTxn = false
+			// ROLLBACK restores exactly the rows visible before BEGIN, in every table the transaction wrote
+			now1, _, err1 := vScanAll(vt)
+			now2, _, err2 := vScanAll(vt2)
+			symAssert(err1 == nil && err2 == nil, "scan-after-rollback-ok")
+			symAssert(symDeepEq(now1, atBegin1), "rollback-restores-first-table")
+			symAssert(symDeepEq(now2, atBegin2), "rollback-restores-second-table")
 		}
 		// outside a transaction the connection carries a write time only if the user set one
 		if !g.inTxn {
